@@ -38,8 +38,10 @@ pub enum Outcome {
 
 struct Fixtures {
     d: BigUint,
-    pk: Sm2PublicKey,
-    sk: Sm2PrivateKey,
+    /// (carried in `Xfer`: the fixtures sit in a process-wide OnceLock, and a key type that stops being `Sync` must not
+    /// stop the harness from building; each process uses them from one thread at a time)
+    pk: Xfer<Sm2PublicKey>,
+    sk: Xfer<Sm2PrivateKey>,
     sig: Vec<u8>,
     msg: Vec<u8>,
     cts: Vec<(bool, bool, Vec<u8>)>,
@@ -121,7 +123,7 @@ fn fx() -> &'static Fixtures {
         let mut sm9_sig = a9::cand(&h).to_vec();
         sm9_sig.extend_from_slice(&sm9::g1_bytes(&s9));
         let sm9_msk = gm_sm9::key::Sm9SignMasterKey { ks: refmodels::util::to_limbs(&ks), ppubs: a9::lib_g2_affine(&ppubs) };
-        Fixtures { d, pk, sk, sig, msg, cts, asn1, pub65: sm2::encode_point(&pkr, false), pub33: sm2::encode_point(&pkr, true), spki_der, spki_pem, pkcs8_der, pkcs8_pem, sm4_key, mode_cts, sm9_ct: ct9.encode(), sm9_cts_aligned, cts32, sm9_key, sm9_msk, sm9_sig }
+        Fixtures { d, pk: Xfer::new(pk), sk: Xfer::new(sk), sig, msg, cts, asn1, pub65: sm2::encode_point(&pkr, false), pub33: sm2::encode_point(&pkr, true), spki_der, spki_pem, pkcs8_der, pkcs8_pem, sm4_key, mode_cts, sm9_ct: ct9.encode(), sm9_cts_aligned, cts32, sm9_key, sm9_msk, sm9_sig }
     })
 }
 
@@ -148,10 +150,10 @@ fn call(entry: &str, data: &[u8]) -> Outcome {
     let text = String::from_utf8_lossy(data).to_string();
     let parts: Vec<&str> = entry.split('/').collect();
     match parts[0] {
-        "sm2.verify" => okerr(f.pk.verify(None, &f.msg, data)),
-        "sm2.verify.msg" => okerr(f.pk.verify(None, data, &f.sig)),
-        "sm2.decrypt" => okerr(f.sk.decrypt(data, parts[2] == "compressed", if parts[1] == "C1C3C2" { Sm2Model::C1C3C2 } else { Sm2Model::C1C2C3 })),
-        "sm2.decrypt_asn1" => okerr(f.sk.decrypt_asn1(data, false, Sm2Model::C1C3C2)),
+        "sm2.verify" => okerr(f.pk.get().verify(None, &f.msg, data)),
+        "sm2.verify.msg" => okerr(f.pk.get().verify(None, data, &f.sig)),
+        "sm2.decrypt" => okerr(f.sk.get().decrypt(data, parts[2] == "compressed", if parts[1] == "C1C3C2" { Sm2Model::C1C3C2 } else { Sm2Model::C1C2C3 })),
+        "sm2.decrypt_asn1" => okerr(f.sk.get().decrypt_asn1(data, false, Sm2Model::C1C3C2)),
         "sm2.pub.new" => okerr(Sm2PublicKey::new(data)),
         "sm2.pub.from_hex" => okerr(Sm2PublicKey::from_hex_string(&text)),
         "sm2.pub.spki_der" => okerr(Sm2PublicKey::from_public_key_der(data)),
@@ -190,7 +192,7 @@ fn call(entry: &str, data: &[u8]) -> Outcome {
                             let _ = sk.decrypt(&ct, true, Sm2Model::C1C2C3);
                         }
                     }
-                    if let (Ok(mut a), Ok(mut b)) = (gm_sm2::exchange::Exchange::new(16, None, &pk, &sk, None, &f.pk), gm_sm2::exchange::Exchange::new(16, None, &f.pk, &f.sk, None, &pk)) {
+                    if let (Ok(mut a), Ok(mut b)) = (gm_sm2::exchange::Exchange::new(16, None, &pk, &sk, None, f.pk.get()), gm_sm2::exchange::Exchange::new(16, None, f.pk.get(), f.sk.get(), None, &pk)) {
                         if let Ok(ra) = a.exchange_1() {
                             if let Ok((rb, sb)) = b.exchange_2(&ra) {
                                 if let Ok(sa) = a.exchange_3(&rb, sb) {
@@ -208,6 +210,7 @@ fn call(entry: &str, data: &[u8]) -> Outcome {
         "sm4.block.decrypt" => okerr(Sm4Cipher::new(&f.sm4_key).and_then(|c| c.decrypt(data))),
         "sm4.mode.new" => okerr(Sm4CipherMode::new(data, CipherMode::Cbc)),
         "sm4.mode.decrypt" => okerr(Sm4CipherMode::new(&f.sm4_key, mode_of(parts[1])).and_then(|m| m.decrypt(data, &[0x11u8; 16]))),
+        "sm4.mode.encrypt" => okerr(Sm4CipherMode::new(&f.sm4_key, mode_of(parts[1])).and_then(|m| m.encrypt(data, &[0x11u8; 16]))),
         "sm4.mode.decrypt.iv" => okerr(Sm4CipherMode::new(&f.sm4_key, mode_of(parts[1])).and_then(|m| m.decrypt(&[0x42u8; 32], data))),
         "sm4.mode.encrypt.iv" => okerr(Sm4CipherMode::new(&f.sm4_key, mode_of(parts[1])).and_then(|m| m.encrypt(&[0x42u8; 33], data))),
         "sm9.decrypt" => okerr(f.sm9_key.decrypt(b"Bob", data)),
@@ -229,7 +232,7 @@ fn call(entry: &str, data: &[u8]) -> Outcome {
         "sm2.verify.id" => {
             // IDs are &'static str: the bytes are mapped to printable ASCII; the length is what is being swept
             let id: String = data.iter().map(|b| (b'!' + b % 90) as char).collect();
-            okerr(f.pk.verify(Some(a2::static_id(&id)), &f.msg, &f.sig))
+            okerr(f.pk.get().verify(Some(a2::static_id(&id)), &f.msg, &f.sig))
         }
         "sm9.verify" => {
             // data = h (32) || S.x (32) || S.y (32), zero padded; parts[1] selects the representation of S
@@ -439,6 +442,16 @@ fn cases(tier: Tier, seed: u64) -> Vec<Case> {
         table.push((format!("sm4.mode.decrypt.iv/{}", m), vec![vec![0x11u8; 16]], 40));
         table.push((format!("sm4.mode.encrypt.iv/{}", m), vec![vec![0x11u8; 16]], 40));
     }
+    // long inputs (64 KiB + 16, 1 MiB + 16, 4 MiB + 21 bytes) through mode decryption and encryption, block decryption of the
+    // modes' raw data path and SM2 verification's message: a per-block recursion or a quadratic copy shows as abort / time-out
+    for (m, _) in &f.mode_cts {
+        for len in [65536usize + 16, (1 << 20) + 16, (1 << 22) + 21] {
+            let data: Vec<u8> = (0..len).map(|i| (i as u8).wrapping_mul(31).wrapping_add(7)).collect();
+            push(&mut v, &format!("sm4.mode.decrypt/{}", m), &data, "long-input".into());
+            push(&mut v, &format!("sm4.mode.encrypt/{}", m), &data, "long-input".into());
+        }
+    }
+    push(&mut v, "sm2.verify.msg", &vec![0x5au8; (1 << 22) + 21], "long-input".into());
     // SM9 operations with valid keys over message / key lengths on and next to the KDF block boundary
     for l in [1usize, 31, 32, 33, 64, 96, 128, 255] {
         push(&mut v, "sm9.ops", &vec![0x61u8; l], "operations-with-valid-keys".into());
@@ -685,7 +698,7 @@ pub fn run(ctx: &Arc<Ctx>) {
     refmodels::selftest::run(&["sm3", "sm2", "sm9"]).unwrap_or_else(|e| ctx.machinery_error(format!("reference self-test failed: {}", e)));
     let cs = Arc::new(cases(ctx.tier, ctx.seed));
     let limit = Duration::from_secs(ctx.tier.pick(5, 10));
-    ctx.set_rule("entry points: SM2 verify (signature and message), raw decryption (2 orders x 2 encodings), ASN.1 decryption, public/private key decoders for bytes, hex, DER and PEM, SM4 cipher construction, block encrypt/decrypt, mode construction and mode decryption (data and IV), SM9 decryption, SM9 verification (h and S from bytes, affine / Jacobian / infinity), identities of every length 0..=300 through SM9 decryption / verification / extraction and SM2 verification, mod_n_from_hash, the SM2 KDF, and (the property's anchors name eea.rs / eia.rs) ZUC / EEA3 / EIA3 construction from key and IV bytes and message buffers shorter than LENGTH; per byte-string parameter every length 0..=200 (0..=400 for SM9 decryption) x {0x00, 0xFF, seeded}; for each valid encoding (SM2 / SM9 ciphertexts also with a body of 32 and 64 bytes, the KDF block boundary) every truncation, every single-byte corruption (4 kinds per position) and trailing bytes; hex strings of every length 0..=140 and a non-hex character at every position; well-formed PKCS#8 documents whose private-key octets have every length 0..=40 and {48,64,127,128,255,256}; PEM truncations and corruptions, every permutation of a PEM document's lines, each line dropped / doubled, fused, stray and missing armour lines, surrounding text (through from_public_key_pem, str::parse and from_pkcs8_pem); raw SM2 ciphertexts and public keys of every length under every SEC1 tag byte {02,03,04,06,07}, and each ciphertext form presented (whole and truncated) to the entry points for the other forms; boundary private keys {0,1,n-2,n-1,n,2^256-1}: whatever the constructor accepts must sign, encrypt (also the empty message and 32- / 64-byte messages), decrypt and run a key agreement to completion; SM9 encrypt / sign / exchange with valid keys over lengths {1,31,32,33,64,96,128,255}. Each call runs in a child process under panic capture and a wall-clock watchdog. Oracle: outcome in {Ok, Err}; panic, overflow, abort and time-out are violations (whether an Ok was deserved is judged by C04/C06/C07/C19).");
+    ctx.set_rule("entry points: SM2 verify (signature and message), raw decryption (2 orders x 2 encodings), ASN.1 decryption, public/private key decoders for bytes, hex, DER and PEM, SM4 cipher construction, block encrypt/decrypt, mode construction and mode decryption (data and IV), SM9 decryption, SM9 verification (h and S from bytes, affine / Jacobian / infinity), identities of every length 0..=300 through SM9 decryption / verification / extraction and SM2 verification, mod_n_from_hash, the SM2 KDF, and (the property's anchors name eea.rs / eia.rs) ZUC / EEA3 / EIA3 construction from key and IV bytes and message buffers shorter than LENGTH; per byte-string parameter every length 0..=200 (0..=400 for SM9 decryption) x {0x00, 0xFF, seeded}; for each valid encoding (SM2 / SM9 ciphertexts also with a body of 32 and 64 bytes, the KDF block boundary) every truncation, every single-byte corruption (4 kinds per position) and trailing bytes; hex strings of every length 0..=140 and a non-hex character at every position; well-formed PKCS#8 documents whose private-key octets have every length 0..=40 and {48,64,127,128,255,256}; PEM truncations and corruptions, every permutation of a PEM document's lines, each line dropped / doubled, fused, stray and missing armour lines, surrounding text (through from_public_key_pem, str::parse and from_pkcs8_pem); raw SM2 ciphertexts and public keys of every length under every SEC1 tag byte {02,03,04,06,07}, and each ciphertext form presented (whole and truncated) to the entry points for the other forms; boundary private keys {0,1,n-2,n-1,n,2^256-1}: whatever the constructor accepts must sign, encrypt (also the empty message and 32- / 64-byte messages), decrypt and run a key agreement to completion; SM9 encrypt / sign / exchange with valid keys over lengths {1,31,32,33,64,96,128,255}; inputs of 64 KiB + 16, 1 MiB + 16 and 4 MiB + 21 bytes through mode encryption / decryption and as the message of SM2 verification. Each call runs in a child process under panic capture and a wall-clock watchdog. Oracle: outcome in {Ok, Err}; panic, overflow, abort and time-out are violations (whether an Ok was deserved is judged by C04/C06/C07/C19).");
     ctx.note_bound(format!("{} calls, watchdog {} s per call", cs.len(), limit.as_secs()));
     ctx.sample(serde_json::to_value(&cs[10]).unwrap());
     ctx.sample(serde_json::to_value(&cs[cs.len() - 1]).unwrap());
